@@ -17,8 +17,12 @@ open PallasVerif PallasVerif.Agent
 structure St where
   agent : Option Agent := none
   cur : String := ""
-  /-- queued peer messages: class, payload check would succeed -/
-  pending : List (String × Bool) := []
+  /-- queued peer messages: class, token was not `other`, epoch at which it was queued -/
+  pending : List (String × Bool × Nat) := []
+  /-- number of keep-alive requests sent through `send_keepalive_request` so far: a response queued with
+      token `same` copies the cookie of the latest request *at that moment*, so it passes the client's
+      cookie check only if no newer request was made before it is read -/
+  epoch : Nat := 0
 
 def roleName : Fsm.Agency → String
   | .client => "client" | .server => "server" | .nobody => "nobody"
@@ -26,21 +30,22 @@ def roleName : Fsm.Agency → String
 def findAgent (p r : String) : Option Agent :=
   Gen.FsmN1.agents.find? (fun a => a.proto = p ∧ roleName a.role = r)
 
-/-- `recv_message` against the queue: result, consumed? -/
-def rawRecv (a : Agent) (s : String) (q : List (String × Bool)) : Except Err (String × Bool) × List (String × Bool) :=
+/-- `recv_message` against the queue: result (class, payload check ok), remaining queue -/
+def rawRecv (a : Agent) (s : String) (epoch : Nat) (q : List (String × Bool × Nat)) :
+    Except Err (String × Bool) × List (String × Bool × Nat) :=
   if a.hasAgency s then (.error "AgencyIsOurs", q) else
   match q with
   | [] => (.error "Payload", q)   -- never produced: an empty queue is reported as Timeout by the caller
-  | (m, ok) :: rest =>
+  | (m, same, stamp) :: rest =>
     match a.recvMessage s m with
-    | .ok () => (.ok (m, ok), rest)
+    | .ok () => (.ok (m, same && stamp == epoch), rest)
     | .error e => (.error e, rest)
 
 def guardFail (a : Agent) (s f : String) : Option String := a.methodGuard f s
 
 def doCallRecv (a : Agent) (st : St) (f : String) : St × Except Err String :=
   if !a.hasAgency st.cur ∧ st.pending.isEmpty then (st, .error "Payload") else
-  match rawRecv a st.cur st.pending with
+  match rawRecv a st.cur st.epoch st.pending with
   | (.error e, q) => ({ st with pending := q }, .error e)
   | (.ok (m, ok), q) =>
     match a.handles f m with
@@ -51,14 +56,16 @@ def doCallRecv (a : Agent) (st : St) (f : String) : St × Except Err String :=
 
 def wouldBlock (a : Agent) (st : St) : Bool := !a.hasAgency st.cur && st.pending.isEmpty
 
+def bump (st : St) (m : String) : St := if m = "KeepAlive" then { st with epoch := st.epoch + 1 } else st
+
 def step (st : St) : List String → St × String
   | ["agent", p, r] =>
     match findAgent p r with
-    | some a => ({ agent := some a, cur := a.init, pending := [] }, "ok " ++ a.init)
+    | some a => ({ agent := some a, cur := a.init, pending := [], epoch := 0 }, "ok " ++ a.init)
     | none => (st, "bad-op")
   | ["peer", m, k] =>
     match st.agent with
-    | some a => if a.msgs.contains m then ({ st with pending := st.pending ++ [(m, k != "other")] }, "ok") else (st, "bad-op")
+    | some a => if a.msgs.contains m then ({ st with pending := st.pending ++ [(m, k != "other", st.epoch)] }, "ok") else (st, "bad-op")
     | none => (st, "bad-op")
   | ["send", m, _] =>
     match st.agent with
@@ -72,7 +79,7 @@ def step (st : St) : List String → St × String
     match st.agent with
     | some a =>
       if wouldBlock a st then (st, "err Timeout " ++ st.cur) else
-      match rawRecv a st.cur st.pending with
+      match rawRecv a st.cur st.epoch st.pending with
       | (.ok (m, _), q) => ({ st with pending := q }, "ok " ++ m ++ " " ++ st.cur)
       | (.error e, q) => ({ st with pending := q }, "err " ++ e ++ " " ++ st.cur)
     | none => (st, "bad-op")
@@ -82,7 +89,7 @@ def step (st : St) : List String → St × String
       match a.sends.find? (fun s => s.method = f ∧ s.msg = m) with
       | some stp =>
         match a.callSend st.cur stp with
-        | .ok s' => ({ st with cur := s' }, "ok " ++ s' ++ " sent=" ++ m)
+        | .ok s' => (bump { st with cur := s' } m, "ok " ++ s' ++ " sent=" ++ m)
         | .error e => (st, "err " ++ e ++ " " ++ st.cur ++ " sent=none")
       | none => (st, "bad-op")
     | none => (st, "bad-op")
@@ -103,7 +110,7 @@ def step (st : St) : List String → St × String
         match a.callSend st.cur stp with
         | .error e => (st, "err " ++ e ++ " " ++ st.cur ++ " sent=none")
         | .ok s1 =>
-          let st1 := { st with cur := s1 }
+          let st1 := bump { st with cur := s1 } m
           if let some e := guardFail a s1 g then (st1, "err " ++ e ++ " " ++ s1 ++ " sent=" ++ m) else
           if wouldBlock a st1 then (st1, "err Timeout " ++ s1 ++ " sent=" ++ m) else
           match doCallRecv a st1 g with
